@@ -1,6 +1,7 @@
 """C24 Failed logins lock the account as configured (internal/router/ratelimit.go, auth.go Basic branch)."""
 import json
 import os
+import time
 import vf
 
 GROUP = "RateLimit"
@@ -401,10 +402,15 @@ def run(ck):
               "Retry-After: int(d.Seconds()) equals integer division for lockouts below ~4e6 s")
     ck.trusted("harness/C24/c24_test.go (in-package overlay, recording user store, testing/synctest clock)",
                "props/C24.py generators, Python oracle and comparison", "correspondence evaluated by vm_compute")
+    t0 = time.time()
     ck.coq_stage(GROUP, theorems=THEOREMS)
+    tm = {"coq_stage": round(time.time() - t0, 1)}
+    ck.cov["timing_s"] = tm
+    t0 = time.time()
 
     ok, binp = vf.go_test_build(ck.work, "internal/router", {"internal/router/zz_verif_c24_test.go":
                                 os.path.join(vf.HARNESS, "C24", "c24_test.go")}, "c24.test")
+    tm["go_build"] = round(time.time() - t0, 1)
     if not ok:
         ck.violation("harness-build", "harness for internal/router does not build:\n" + binp[-1500:],
                      replay={"log": binp[-3000:]}, found_input=False)
@@ -423,7 +429,9 @@ def run(ck):
     tot = {"ops": 0, "refused": 0, "validated": 0, "hist": 0}
     nontriv = set()
     for mode, hs in modes:
+        t0 = time.time()
         st = run_mode(ck, mode, hs, binp, mode)
+        tm["mode_" + mode] = round(time.time() - t0, 1)
         if st is None:
             continue
         tot["ops"] += st["ops"]
